@@ -66,7 +66,7 @@ const c10Companion = "parameters: {companionOnly: 7}\nservices:\n  companionSvc:
 
 var c10Companions = []string{"", "before", "after", "glob"}
 
-var c10PreStates = []string{"absent", "existing", "directory", "missing-parent", "dev-full"}
+var c10PreStates = []string{"absent", "existing", "existing-long", "directory", "missing-parent", "dev-full"}
 var c10Faults = []string{"none", "missing-file", "directory-as-input", "empty-glob", "invalid-glob"}
 
 var sentinel = []byte("// SENTINEL: this file existed before the run\npackage old\n")
@@ -136,6 +136,8 @@ func c10Eval(t tb, c c10Cell) {
 		_ = os.WriteFile(out, sentinel, 0o640)
 		old := time.Date(2001, 2, 3, 4, 5, 6, 0, time.UTC)
 		_ = os.Chtimes(out, old, old)
+	case "existing-long": // longer than anything the tool generates for these inputs: a write that does not truncate leaves a tail
+		_ = os.WriteFile(out, bytes.Repeat(sentinel, 4000), 0o600)
 	case "directory":
 		_ = os.MkdirAll(filepath.Join(out, "inner"), 0o755)
 		_ = os.WriteFile(filepath.Join(out, "inner", "keep.txt"), sentinel, 0o644)
@@ -156,7 +158,7 @@ func c10Eval(t tb, c c10Cell) {
 	preInner := sut.StatPath(filepath.Join(out, "inner", "keep.txt"))
 	r := bin.Run(dir, nil, 120*time.Second, sut.BuildArgs(pats, out, flags)...)
 	post := sut.StatPath(out)
-	col.Case(ev.Hash(c), !wantOK || c.PreState == "existing")
+	col.Case(ev.Hash(c), !wantOK || c.PreState == "existing" || c.PreState == "existing-long")
 	col.Label("class:" + c.Class)
 	col.Label("pre-state:" + c.PreState)
 	col.Label("input-fault:" + c.Fault)
@@ -297,6 +299,7 @@ func TestC10(t *testing.T) {
 						if !ev.Mine(idx) {
 							continue
 						}
+						f.Spelling = idx % 4 // the switches written bare / explicitly / repeated / in front
 						c10Eval(t, c10Cell{Class: cl.name, YAML: cl.yaml, Flags: f, PreState: ps, Fault: fault, WantOK: cl.ok(f), Companion: comp})
 						if deadlinePassed() {
 							return
@@ -306,7 +309,7 @@ func TestC10(t *testing.T) {
 			}
 		}
 	}
-	col.Exhaustive(fmt.Sprintf("full matrix: %d configuration classes x 8 flag subsets {--stub, --ignore-missing-params, --ignore-missing-services} x 5 output pre-states x 5 input faults x 4 companion-file arrangements (none / a valid second file before, after, or matched by the same glob), every cell with and without --quiet", len(c10Classes)))
+	col.Exhaustive(fmt.Sprintf("full matrix: %d configuration classes x 8 flag subsets {--stub, --ignore-missing-params, --ignore-missing-services} x 6 output pre-states x 5 input faults x 4 companion-file arrangements (none / a valid second file before, after, or matched by the same glob), every cell with and without --quiet", len(c10Classes)))
 
 	// random configurations inside random cells
 	setRapidChecks(pick(25, 2000))
@@ -342,7 +345,7 @@ func TestC10(t *testing.T) {
 			col.Exclude("serialiser-self-check")
 			return
 		}
-		f := sut.Flags{Stub: rapid.Bool().Draw(rt, "stub"), IgnoreMissingParams: rapid.Bool().Draw(rt, "ignp"), IgnoreMissingServices: rapid.Bool().Draw(rt, "igns")}
+		f := sut.Flags{Stub: rapid.Bool().Draw(rt, "stub"), IgnoreMissingParams: rapid.Bool().Draw(rt, "ignp"), IgnoreMissingServices: rapid.Bool().Draw(rt, "igns"), Spelling: rapid.IntRange(0, 3).Draw(rt, "spelling")}
 		a := ref.Analyse(conf)
 		c := c10Cell{Class: "generated", YAML: text, Flags: f,
 			PreState: rapid.SampledFrom(c10PreStates).Draw(rt, "pre"), Fault: rapid.SampledFrom(c10Faults).Draw(rt, "fault"),
